@@ -46,6 +46,23 @@ def run(ctx):
     ]
     for rule in (_align_parse, _align_emit, _shape, _keywords, _optional, _falsy, _order_rule, _escape, _exacttype, _hashable):
         ctx.section(rule, ctx, index)
+    # a round trip is quantified over interfaces: the second emission in a process must not see what the first left
+    # behind (C10's call-history rules on the emitters and parsers of the four formats)
+    from . import c10
+
+    ctx.section(
+        c10.state_slice,
+        ctx,
+        "C02.state",
+        [
+            "cdd.class_.emit.class_",
+            "cdd.class_.parse.class_",
+            "cdd.function.emit.function",
+            "cdd.function.parse.function",
+            "cdd.argparse_function.emit.argparse_function",
+            "cdd.argparse_function.parse.argparse_ast",
+        ],
+    )
 
 
 def _hashable(ctx, index, rule="C02.hashable"):
